@@ -263,6 +263,45 @@ theorem decLevel_inv {mx : Nat} {l : Lvl} {ws : List Win} (inv : TInv mx l ws) (
     exact ⟨h1, h2, by dsimp only; omega⟩
   · exact inv.all
 
+/-- `quota.refund` preserves the relation; a refund that happened is one charge less in the current window. -/
+theorem refundLevel_inv {mx : Nat} {l : Lvl} {ws : List Win} (inv : TInv mx l ws) (r : Rid) :
+    TInv mx (refundLevel l r).1 (if (refundLevel l r).2 = true then refundWin ws else ws) := by
+  unfold refundLevel
+  cases hl : l.memo.lookup r with
+  | none => simpa using inv
+  | some v =>
+    cases v with
+    | false => simpa using inv
+    | true =>
+      simp only [if_true]
+      have hlt := memoTrue_erase_lt l.memo r hl
+      have hm : memoTrue ((r, false) :: l.memo.filter (fun e => e.1 != r)) + 1 ≤ memoTrue l.memo := by
+        simp only [memoTrue_cons]; simpa using hlt
+      cases ws with
+      | nil =>
+        obtain ⟨_, _, h3⟩ := inv.empty rfl
+        omega
+      | cons w rest =>
+        obtain ⟨h1, h2, h3⟩ := inv.head w rest rfl
+        have hall := inv.all
+        simp only [refundWin]
+        constructor
+        · intro h; simp at h
+        · intro w' rest' h
+          simp only [List.cons.injEq] at h
+          obtain ⟨hw, _⟩ := h
+          subst hw
+          dsimp only
+          exact ⟨h1, by omega, by omega⟩
+        · intro w' hw'
+          simp only [List.mem_cons] at hw'
+          rcases hw' with h | h
+          · subst h
+            dsimp only
+            have := (hall w (by simp)).2
+            omega
+          · exact hall w' (by simp only [List.mem_cons]; right; exact h)
+
 theorem TInv.counter_le {mx : Nat} {l : Lvl} {ws : List Win} (inv : TInv mx l ws) : l.counter ≤ mx := by
   cases ws with
   | nil => have := (inv.empty rfl).2.1; omega
@@ -300,7 +339,8 @@ theorem chain_valid (cfg : Cfg) (q : QId) : ∀ p ∈ chain cfg q, validPair cfg
 /-! ### Schedules -/
 
 def Pc.todo : Pc → List (QId × QuotaCfg)
-  | .inc t _ => t
+  | .inc t c _ => t ++ c
+  | .refund t _ => t
   | .allowed t => t
   | .dec t => t
   | .done _ => []
@@ -317,6 +357,14 @@ theorem tally_cons_at (win : Nat) (k : Key) (e : LEv) (log : List LEv) (h : LEv.
     tally win k (e :: log) = tallyStep win (tally win k log) e := by
   simp [tally, h]
 
+theorem afterInc_valid (cfg : Cfg) (q : QId) (thenA : Bool) :
+    ∀ p ∈ (afterInc cfg q thenA).todo, validPair cfg p := by
+  intro p hp
+  unfold afterInc at hp
+  split at hp
+  · exact chain_valid cfg q p (by simpa [Pc.todo] using hp)
+  · simp [Pc.todo] at hp
+
 theorem stepThread_inv (cfg : Cfg) (st : St) (log : List LEv) (now tid : Nat) (th : Thread)
     (hl : LevelsOk cfg st log) (hv : ∀ p ∈ th.pc.todo, validPair cfg p) :
     LevelsOk cfg (stepThread cfg st now tid th).1 ((stepThread cfg st now tid th).2.2 ++ log) ∧
@@ -324,13 +372,9 @@ theorem stepThread_inv (cfg : Cfg) (st : St) (log : List LEv) (now tid : Nat) (t
   unfold stepThread
   cases hpc : th.pc with
   | done v => simpa [Pc.todo] using hl
-  | inc todo thenA =>
+  | inc todo charged thenA =>
     cases todo with
-    | nil =>
-      dsimp only
-      split
-      · exact ⟨by simpa using hl, fun p hp => chain_valid cfg th.q p (by simpa [Pc.todo] using hp)⟩
-      · exact ⟨by simpa using hl, by simp [Pc.todo]⟩
+    | nil => exact ⟨by simpa using hl, fun p hp => afterInc_valid cfg th.q thenA p hp⟩
     | cons ac rest =>
       obtain ⟨a, c⟩ := ac
       rw [hpc] at hv
@@ -355,13 +399,58 @@ theorem stepThread_inv (cfg : Cfg) (st : St) (log : List LEv) (now tid : Nat) (t
           rw [tally_cons_other _ _ _ _ (by simp [LEv.at]; exact hkk)]
           exact hl k c' hk
       · intro p hp
-        have hrest : ∀ p ∈ rest, validPair cfg p := fun p hp => hv p (by simp [Pc.todo, hp])
-        revert hp
-        split
-        · intro hp; exact hv p (by simp only [Pc.todo] at hp ⊢; simp [*] at hp ⊢)
-        · split
-          · intro hp; exact chain_valid cfg th.q p (by simpa [Pc.todo] using hp)
-          · intro hp; simp [Pc.todo] at hp
+        have hall : ∀ p ∈ (a, c) :: (rest ++ charged), validPair cfg p := by
+          intro p hp; exact hv p (by simpa [Pc.todo] using hp)
+        unfold incNext at hp
+        split at hp
+        · split at hp
+          · exact afterInc_valid cfg th.q thenA p hp
+          · rename_i x xs
+            apply hall
+            simp only [Pc.todo, List.mem_append, List.mem_cons] at hp ⊢
+            rcases hp with hp | hp | hp
+            · right; left; exact hp
+            · left; exact hp
+            · right; right; exact hp
+        · split at hp
+          · exact afterInc_valid cfg th.q thenA p hp
+          · apply hall
+            simp only [Pc.todo] at hp
+            simp only [List.mem_cons, List.mem_append]
+            right; right; simpa using hp
+        · exact afterInc_valid cfg th.q thenA p hp
+  | refund todo thenA =>
+    cases todo with
+    | nil => exact ⟨by simpa using hl, fun p hp => afterInc_valid cfg th.q thenA p hp⟩
+    | cons ac rest =>
+      obtain ⟨a, c⟩ := ac
+      rw [hpc] at hv
+      have hac : validPair cfg (a, c) := hv (a, c) (by simp [Pc.todo])
+      have hrest : ∀ p ∈ rest, validPair cfg p := fun p hp => hv p (by simp [Pc.todo, hp])
+      dsimp only
+      constructor
+      · intro k c' hk
+        by_cases hkk : (a, groupOf c th.h) = k
+        · subst hkk
+          have hcc : c' = c := by
+            have : cfg.quotas[a]? = some c := hac
+            simp only at hk; rw [this] at hk; exact (Option.some.inj hk).symm
+          subst hcc
+          rw [St.at_set]
+          simp only [if_true, List.singleton_append]
+          rw [tally_cons_at _ _ _ _ (by simp [LEv.at])]
+          have := refundLevel_inv (hl (a, groupOf c' th.h) c' hk) th.r
+          cases hres : (refundLevel (st.at (a, groupOf c' th.h)) th.r).2 <;>
+            simp only [hres, tallyStep] at this ⊢ <;> simpa using this
+        · rw [St.at_set]
+          simp only [hkk, if_false, List.singleton_append]
+          rw [tally_cons_other _ _ _ _ (by simp [LEv.at]; exact hkk)]
+          exact hl k c' hk
+      · intro p hp
+        unfold refundNext at hp
+        split at hp
+        · exact afterInc_valid cfg th.q thenA p hp
+        · exact hrest p (by simpa [Pc.todo] using hp)
   | allowed todo =>
     cases todo with
     | nil => exact ⟨by simpa using hl, by simp [Pc.todo]⟩
